@@ -15,6 +15,10 @@ SPEC = Spec(
         Harness(name="block", module="exporter", pkg=_PKG, go="go1.26",
                 files={"zz_verif_c01_pq_test.go": "c01/pq_test.go", "zz_verif_c01_block_test.go": "c01/block_test.go"},
                 test="TestVerifC01Block", driver="drv_c01", n={"quick": 4000, "thorough": 60000}, timeout_s=900),
+        # an Encoding that does not round-trip (Unmarshal fails on some stored requests): monitor with a live Go oracle
+        Harness(name="undec", module="exporter", pkg=_PKG,
+                files={"zz_verif_c01_pq_test.go": "c01/pq_test.go"},
+                test="TestVerifC01Undecodable", driver=None, n={"quick": 1500, "thorough": 20000}, timeout_s=600),
         Harness(name="codec", module="exporter", pkg=_PKG,
                 files={"zz_verif_c01_codec_test.go": "c01/codec_test.go"},
                 test="TestVerifC01Codec", driver="drv_c01", n={"quick": 3000, "thorough": 30000}, timeout_s=600),
@@ -62,6 +66,9 @@ SPEC = Spec(
          "error / retryable error / hanging; the last incarnation is healthy and drains. Payloads carry an id resource attribute. Oracle: "
          "every ConsumeX that returned nil is handed to the export function by a live incarnation at least once, and at every death it is "
          "still in the storage bytes unless a hand-off of it has returned; signatures C01/exporter/<what>/<signal>/<option shape>. "
+         "undec (monitor, Go oracle, no model): random pq scripts with deaths under an Encoding whose Unmarshal fails for a quarter of the "
+         "offered ids; decodable requests are checked live (stored until finalised, handed over), undecodable ones that leave storage "
+         "without a hand-off are reported and counted. "
          "distinct = distinct op sequences (sha1 of the op lines).",
     trusted_base=[
         "Lean 4.33.0 kernel; axioms per theorem listed under axioms_per_theorem (subset of propext, Classical.choice, Quot.sound)",
@@ -69,15 +76,17 @@ SPEC = Spec(
         "call; tied by exact differential after every op (return value, Size(), raw store dump) on every run",
         "storage.Client contract (extension/xextension/storage): Batch is atomic and durable, Get of a missing key returns nil, "
         "Delete of a missing key is a no-op; the process dies only between two client calls",
-        "Encoding: Unmarshal(Marshal(r)) = r for stored requests (the model stores requests, not bytes); the index byte codecs are "
-        "modelled and proved separately (C01_index_codec, C01_index_array_codec) and tied by their own differential",
+        "the index byte codecs are modelled and proved separately (C01_index_codec, C01_index_array_codec) and tied by their own "
+        "differential; in every 8th pq/block case the raw storage map is printed in hex and decoded by the Lean functions readIndexes / "
+        "readDi / readItemWith (the subjects of C01_bytes_refine) and compared with the model's store (prop bytes)",
         "indexes are natural numbers in the model (uint64 in the code): fewer than 2^64 enqueues over the life of a storage directory",
         "operations on one queue are serialised by persistentQueue.mu, so a sequential model is sound; goroutine-level concurrency of "
         "producers/consumers is C02/C03",
         "harness/c01/pq_test.go (death injection by panic from the storage client, decoding of the raw map) and lib/runner.py (diff)",
         "translator translators/cmd/pqkeys (go/ast): durable key names, radix of getItemKey, widths / byte order (call sequence) of the "
         "index codecs, moduli and remainders of the periodic size back-ups -> Gen/PQKeys.lean; the back-up periods are used by the model, "
-        "the rest is pinned by C01_gen_key_names / C01_gen_keys_ok / C01_gen_codec_constants and used by C01_bytes_refine",
+        "the rest is pinned by C01_gen_key_names / C01_gen_keys_ok / C01_gen_codec_constants and used by C01_bytes_refine; it also "
+        "fails unless asyncQueue's consumer loop and disabledBatcher.Consume have the pinned shape (Done called with the export's outcome)",
         "blockOnOverflow: cond.go wakes waiters in FIFO order (C02); the model's `wake` label may fire at any time, the harness fires it "
         "when the real oldest waiter was signalled",
         "classification of the error handed to OnDone: experr.IsShutdownErr(err) = the error tree contains a shutdown error "
@@ -85,9 +94,25 @@ SPEC = Spec(
         "extension only (storage errors): a storage call that returns an error has no effect on the stored data",
     ],
     assumptions=[
-        "storage errors other than death are not injected (the property does not quantify over them); the error fallbacks of "
-        "itemDispatchingFinish are therefore not modelled",
-        "Done is called at most once per hand-off and only on the incarnation that handed the request out",
+        "SCOPE OF THE PROOF: the theorems are about persistent_queue.go; `handed` in the theorems means `Read returned the request to the "
+        "consumer`. The step from there to `the export function was invoked, and Done is called with its outcome after it returned` "
+        "(asyncQueue loop, batcher as consume function, obsQueue, senders, option merging) has no theorem in C01: it is MONITORED "
+        "(harnesses e2e and exporter: real stack, sampled scripts, Go oracle incl. `a request leaves storage only after an export of it "
+        "returned a final outcome` observed at the storage client, plus the proven-sound Lean trace checker) and the two glue functions "
+        "asyncQueue.Start loop / disabledBatcher.Consume are shape-pinned by the translator. `retry interrupted by shutdown returns a "
+        "shutdown error` is C05 (C05_shutdown_classified, C05_shutdown_survives_wrapping); combining part errors is C04 (refCountDone)",
+        "LAWFUL ENCODING: Unmarshal succeeds on every stored request body. The code deletes an item whose Unmarshal fails (getNextItem, "
+        "recovery) without any hand-off; the model stores requests, not bytes, so clause B is proved for encodings that decode what they "
+        "encoded (harness undec runs an encoding that does not, with a live oracle for the decodable requests, and counts the others)",
+        "IDENTITY: requests are compared by value, the id is their identity; the per-request reading of the theorems is for scripts whose "
+        "offers are pairwise different (C01_accepted_nodup_of_distinct_offers, C01_no_loss_distinct); that fire never inspects the id is "
+        "not proved in Lean (the real code never looks into the payload; the differential carries ids as payload bytes)",
+        "Done is called at most once per hand-off and only on the incarnation that handed the request out (the model ignores `done i` "
+        "for an index that is not outstanding; the real onDone has no such guard)",
         "`accepted` in the theorems = enqueue batch committed, a superset of `Offer returned nil` (C01_offer_ok_accepted)",
+        "storage calls that RETURN AN ERROR are outside the property (it quantifies over deaths); they are modelled and injected as an "
+        "extension (Model/C01Err.lean, mode=err, differential only, C01_ext_errors_*), including the fallbacks of itemDispatchingFinish",
+        "the liveness theorems (C01_handed_at_least_once, C01_drain*) assume that eventually one start-up and one drain complete without "
+        "a further death and that every hand-off of that drain completes finally",
     ],
 )
